@@ -61,6 +61,7 @@ type Conn struct {
 	armed        bool
 	wdeadline    time.Duration // write deadline (virtual instant), as net.Conn has it: a Write after it fails at once
 	warmed       bool
+	stalled      bool // the client has stopped reading: a Write blocks until it reads again, the write deadline passes or the connection closes
 	reading      bool
 
 	// callbacks, invoked without c.mu held unless stated
@@ -122,9 +123,24 @@ func (k *Conn) Write(p []byte) (int, error) {
 		k.mu.Unlock()
 		return 0, errors.New("write: broken pipe (client closed)")
 	}
-	if k.warmed && k.clk.Now() >= k.wdeadline {
-		k.mu.Unlock()
-		return 0, timeoutErr{} // os.ErrDeadlineExceeded of a real connection: nothing is written
+	for {
+		if k.warmed && k.clk.Now() >= k.wdeadline {
+			k.mu.Unlock()
+			return 0, timeoutErr{} // os.ErrDeadlineExceeded of a real connection: nothing is written
+		}
+		if !k.stalled {
+			break
+		}
+		// a client that does not read: the write blocks (socket buffers are taken to be full) until something changes
+		k.cond.Wait()
+		if k.closed {
+			k.mu.Unlock()
+			return 0, io.ErrClosedPipe
+		}
+		if k.clientClosed {
+			k.mu.Unlock()
+			return 0, errors.New("write: broken pipe (client closed)")
+		}
 	}
 	k.mu.Unlock()
 	b := append([]byte{}, p...)
@@ -178,6 +194,7 @@ func (k *Conn) armWrite(t time.Time) {
 		k.warmed = true
 		k.wdeadline = k.clk.Now() + time.Until(t).Round(time.Millisecond)
 	}
+	k.cond.Broadcast()
 	k.mu.Unlock()
 }
 
@@ -187,6 +204,16 @@ func (k *Conn) SetReadDeadline(t time.Time) error  { return k.arm(t) }
 func (k *Conn) SetWriteDeadline(t time.Time) error { k.armWrite(t); return nil }
 
 // ---- client side
+
+// SetStalled makes the client stop (or resume) reading: while it is stalled the broker's writes block, as they do on a
+// connection whose peer does not drain its socket, and fail when the write deadline passes on the virtual clock.
+func (k *Conn) SetStalled(on bool) {
+	k.mu.Lock()
+	k.stalled = on
+	k.cond.Broadcast()
+	k.mu.Unlock()
+}
+
 func (k *Conn) ClientWrite(b []byte) error {
 	k.mu.Lock()
 	defer k.mu.Unlock()
